@@ -12,6 +12,29 @@ BASE_NOTE = (
 HARNESS_NOTE = "Modelled, not verified: pyserial ReaderThread/LineReader, queue.Queue, threading.Event/Lock/Thread.join, time.sleep and the port are replaced by the harness's simulated primitives (their contracts are the model's assumptions); real-clock behaviour and OS scheduling latency / thread teardown are outside every theorem."
 
 CHECKS = {
+    "C18": dict(
+        text="Coq model of ynca/server.py (YncaDataStore ingestion, get/put with change detection, handle_get/handle_put with every coupling) with an explicit exception channel; guard flags, the JSON-decoding "
+        "shape of fill_from_file, the four tables and the 12 recordings (as raw lines) are regenerated from /repo on every run. Theorems for EVERY recording (any list of lines) and every oracle: the loaded store "
+        "holds for (S,F) the value of the last line carrying one (error lines never overwrite, other lines never disturb); a GET of an ordinary function answers exactly that value, and an error line for a key no "
+        "line names; every GET gets at least one line; PUT of a new value to an ordinary stored function is stored, reported exactly once, returned by later GETs and changes nothing else; PUT of the current "
+        "value reports nothing; group queries answer only stored members; every reply from every reachable store is a well-formed line; reflection: the 12 bundled recordings loaded by the model agree with the "
+        "independent reader's last-value tables. The real fill_from_file and the real YncaCommandHandler (buffers for socket files) run on the recordings, on generated recordings and on GET/PUT sequences and are compared with the model and an independent reference.",
+        note=BASE_NOTE + "Modelled, not verified: socketserver, text-mode line iteration, str.strip/rstrip/startswith/split, dict insertion order, re.search on the one pattern (hand model shared with C02), json.loads / float() / int() / str(float) as universally quantified oracles. "
+        "The structure of handle_get/handle_put is transcribed by hand; only the guards, conditions and tables are read from the source, the rest is tied by the line-by-line correspondence.",
+        technique="Coq proof (induction over recordings and command sequences, invariant store_ok) + reflection over regenerated tables/recordings + differential correspondence",
+        design_ref="6 (C18)",
+    ),
+    "C19": dict(
+        text="Coq theorem: with the guards the translator reads off the AST of ynca/server.py (dict lookups with defaults, try/except around int()/float()/float+int, empty-list test, lenient decoding) and the "
+        "regenerated truth table of the relative-volume condition, the handler is a total function that never raises for EVERY store, EVERY sequence of received byte lines (any bytes) and every float()/int()/str() "
+        "oracle; relative Up/Down values go through arithmetic iff the function is VOL or ZONEBVOL, identically for Up and Down, and are otherwise stored like any value; a step that cannot be applied is answered "
+        "with an error line and changes nothing. With a guard missing the model raises where the code raises (the model and the unrepaired code agreed line by line on every session). The real handler is fed every "
+        "command the typed API emits (1916 wire lines from real subunit instances) and generated hostile lines (unknown names, Up/Down variants, huge amounts, malformed text, invalid UTF-8) on every bundled recording.",
+        note=BASE_NOTE + "Modelled, not verified: socketserver (an exception escaping handle() closes the socket: read from the standard library), bytes.strip/decode (Base/Utf8.v, validated by correspondence), "
+        "float()/int()/str(float) as universally quantified oracles, int->float OverflowError threshold written into the model (2^1024 - 2^970).",
+        technique="Coq proof (total function with explicit exception channel, guards regenerated from the AST) + differential correspondence on typed-API and hostile lines",
+        design_ref="6 (C19)",
+    ),
     "C06": dict(
         text="Coq theorems over the regenerated function tables and the subunit machine: the initial query plan of EVERY subunit class has no duplicates, contains exactly the own GET or "
         "group query of every function not excluded from initialisation, excluded functions are never queried, the submissions are one GET per plan entry followed by SYS:VERSION last; "
